@@ -279,6 +279,9 @@ def directed_cases(quick=True):
         ("sep=LF (every token at the start of a line)", _sty(seps="[[SWs 10]]", trail="[]")),
         ("sep=CRLF", _sty(seps="[[SWs 13; SWs 10]]", trail="[SWs 13; SWs 10]")),
         ("sep=TAB", _sty(seps="[[SWs 9]]", trail="[SWs 9]")),
+        ("sep=VT (vertical tab directly after every token)", _sty(seps="[[SWs 11]]", trail="[SWs 11]")),
+        ("sep=FF (form feed directly after every token)", _sty(seps="[[SWs 12]]", trail="[SWs 12]")),
+        ("sep=VT FF blank mixed", _sty(seps="[[SWs 11; SWs 32]; [SWs 12; SWs 11]; [SWs 32; SWs 12]]", trail="[SWs 12; SWs 10]")),
         ("sep=blank + non-ASCII comment, next token at the start of the line", _sty(seps="[[SWs 32; SComment %s]]" % nonascii, trail="[SWs 32; SComment %s]" % nonascii)),
         ("sep=LF + non-ASCII comment + blank", _sty(lead="[SComment %s]" % nonascii, seps="[[SWs 10; SComment %s; SWs 32]]" % nonascii, trail="[SWs 10]", tc="(Some %s)" % nonascii)),
         ("sep=empty comment", _sty(lead="[SComment %s]" % cbytes(""), seps="[[SWs 32; SComment %s]; [SWs 9; SComment %s; SComment %s]]" % ((cbytes(""),) * 3), trail="[SWs 32]", tc="(Some %s)" % cbytes(""))),
@@ -502,6 +505,10 @@ def run(chk, replay=None):
     kernel_tie_leg(chk, "lef_write")      # LefWriter::write_layer_geom / write_geom / write_port / write_pin / write_via / write_site / write_units / write_density .. generated from lef21/src/write.rs = the lines of Lef/LefWrite.v (Properties/KernelsLef.v)
     kernel_tie_leg(chk, "lef_write_lib")  # LefWriter::write_macro / format_numeric_prop_def / write_lib (the whole file) = write_macro / write_lib_lines of Lef/LefWrite.v, lines and failure alike
     kernel_tie_leg(chk, "lef_parse")      # LefParser token helpers and parse_density generated from lef21/src/read.rs = Lef/LefParse.v (Properties/KernelsLef.v)
+    kernel_tie_leg(chk, "lef_parse2")     # LefParser::parse_units / parse_site_def / parse_macro_class / parse_property / parse_geometry .. (Gen/KernelsLefRead2Gen.v) = Lef/LefParse.v
+    kernel_tie_leg(chk, "lef_parse3")     # LefParser::parse_layer_geometries / parse_via_shape / parse_via_layer_geometries / parse_obstructions / parse_port / parse_property_definitions = Lef/LefParse.v
+    kernel_tie_leg(chk, "lef_parse_lib")  # LefParser::parse_pin, the whole function = parse_pin / pin_loop of Lef/LefParse.v
+    kernel_tie_leg(chk, "lef_parse_macro")  # LefParser::parse_macro, the whole function = parse_macro / macro_loop of Lef/LefParse.v
     chk.assumptions += [
         "rust_decimal's Decimal::from_str / PartialEq are an external library: specified in Lef/LefDec.v from its source (dec_of_bytes, dec_eq) and validated by the correspondence",
         "derive_builder `build()` is modelled by its documented behaviour (last setter wins, a missing required field is an error)",
